@@ -43,8 +43,10 @@ ASSUMPTIONS = [
     "lambda defaults, strings inside an already parsed string, a `Literal` that is not typing's) are accepted parsed or not, "
     "because the property text does not say whether they are 'string annotations'",
     "a top-level starred base class (`class K(*a)`) is compared inside a list display because `*a` alone is not an eval-mode expression",
-    "the resolvable-name clause demands canonical_path == 'm.A' / 'pkg.B' only for the module-level class A and the imported B when "
-    "the expression does not rebind them; for all other names only that canonical_path does not raise",
+    "the resolvable-name clause demands canonical_path == 'm.A' / 'pkg.B' / 'pk' only for the module-level class A, the imported B and the "
+    "imported package pk when the expression does not rebind them; for all other names only that canonical_path does not raise; along a "
+    "dotted chain whose root is a name, path and canonical_path of each element must be the previous element's + '.' + its name "
+    "(ExprName's documented 'full, resolved name'); attribute names after a non-name receiver (call/subscript/literal) are not judged",
 ]
 EXHAUSTIVE = True
 EXHAUSTIVE_NOTE = {
@@ -210,7 +212,7 @@ def render(case) -> Rendered:
     if imp:
         body.extend(ast.parse(imp).body)
     body.append(_cls("A"))
-    body.extend(ast.parse("from pkg import B").body)
+    body.extend(ast.parse("from pkg import B\nimport pk").body)
     body.append(carrier(pos, e))
     text = ast.unparse(ast.fix_missing_locations(ast.Module(body, []))) + "\n"
     tree = ast.parse(text)
@@ -618,12 +620,66 @@ def check_case(case) -> list[Fail]:
             if not isinstance(p, griffe.ExprName):
                 continue
             path = call("names", lambda p=p: p.canonical_path, what=f"canonical_path of name {p.name!r} in {src_text!r}")
-            if id(p) not in tails and p.name in ("A", "B") and p.name not in rebound:
-                exp_path = {"A": "m.A", "B": "pkg.B"}[p.name]
+            if id(p) not in tails and p.name in ("A", "B", "pk") and p.name not in rebound:
+                exp_path = {"A": "m.A", "B": "pkg.B", "pk": "pk"}[p.name]
                 if path != exp_path:
                     fails.append(Fail("names", "unresolved", f"{r.pos}: name {p.name} in {src_text!r} has canonical_path {path!r}, expected {exp_path!r} (parent={type(p.parent).__name__})"))
                     break
+        # dotted chains rooted at a name: every element resolves relative to the element before it, segment by segment
+        for chain in name_rooted_chains(stored):
+            fail = call("names", check_chain, chain, r.pos, src_text, what=f"path/canonical_path along a dotted chain of {src_text!r}")
+            if fail is not None:
+                fails.append(fail)
+                break
     return fails
+
+
+def check_chain(attribute, pos: str, src_text: str):
+    """`a.b.c` (ExprAttribute rooted at an ExprName): path and canonical_path of each name element must be those of
+    the previous element + "." + its own name; the chain's own path/canonical_path are its last element's."""
+    values = attribute.values
+    dotted = ".".join(v.name for v in values)
+    if values[0].path != values[0].name:
+        return Fail("names", "chain-root-path", f"{pos}: {src_text!r}: root {values[0].name!r} of chain {dotted} has path {values[0].path!r}")
+    for prev, cur in zip(values, values[1:]):
+        for attr in ("path", "canonical_path"):
+            want = f"{getattr(prev, attr)}.{cur.name}"
+            have = getattr(cur, attr)
+            if have != want:
+                return Fail("names", f"chain-{attr}", f"{pos}: {src_text!r}: element {cur.name!r} of chain {dotted} has {attr} {have!r}, expected {want!r} (previous element {prev.name!r}: {getattr(prev, attr)!r})")
+    if values[-1].path != dotted:
+        return Fail("names", "chain-path", f"{pos}: {src_text!r}: last element of chain {dotted} has path {values[-1].path!r}")
+    for attr in ("path", "canonical_path"):
+        if getattr(attribute, attr) != getattr(values[-1], attr):
+            return Fail("names", f"chain-{attr}", f"{pos}: {src_text!r}: chain {dotted} has {attr} {getattr(attribute, attr)!r}, its last element {getattr(values[-1], attr)!r}")
+    return None
+
+
+def name_rooted_chains(expr) -> list:
+    """ExprAttribute nodes of the stored expression whose elements are all names (root included)."""
+    import dataclasses
+
+    import griffe
+
+    out: list = []
+    seen: set[int] = set()
+
+    def walk(e):
+        if isinstance(e, (list, tuple)):
+            for x in e:
+                walk(x)
+            return
+        if not isinstance(e, griffe.Expr) or id(e) in seen:
+            return
+        seen.add(id(e))
+        if isinstance(e, griffe.ExprAttribute) and all(isinstance(v, griffe.ExprName) for v in e.values):
+            out.append(e)
+        for f in dataclasses.fields(e):
+            if f.name != "parent":
+                walk(getattr(e, f.name))
+
+    walk(expr)
+    return out
 
 
 def attribute_tails(expr) -> set[int]:
@@ -782,6 +838,14 @@ def describe(case):
     sites = G.paren_sites(r.expr)
     if sites:
         classes.add("has-paren-site")
+    for n in nodes:
+        if isinstance(n, ast.Attribute):
+            length, v = 1, n
+            while isinstance(v, ast.Attribute):
+                length, v = length + 1, v.value
+            if isinstance(v, ast.Name) and length >= 3:
+                classes.add(f"dotted-chain:{min(length, 5)}{'+' if length > 5 else ''}")
+                classes.add("dotted-root:" + ("module" if v.id == "A" else "imported" if v.id in ("B", "pk") else "unknown"))
     depth = G.model_depth(case["expr"])
     classes.add(f"depth:{min(depth, 7)}")
     stats: Counter = Counter()
